@@ -135,6 +135,30 @@ func c13CheckReply(rq *c13Pkt, reply []byte, wantAuth bool) (ntp []byte, problem
 	return ntp, problems
 }
 
+// c13ForeignOptions describes what a forwarded packet's end-to-end header holds beyond the options
+// it was sent with and at most one receive-timestamp option (type 253) of the forwarder; "" if nothing.
+func c13ForeignOptions(ps *peer.ParsedSCION, sent []*slayers.EndToEndOption) string {
+	if !ps.HasE2E {
+		return ""
+	}
+	ts, k := 0, 0
+	for _, o := range ps.E2E.Options {
+		switch {
+		case k < len(sent) && o.OptType == sent[k].OptType && bytes.Equal(o.OptData, sent[k].OptData):
+			k++
+		case o.OptType == 253:
+			ts++
+		case o.OptType == slayers.OptTypePad1 || o.OptType == slayers.OptTypePadN:
+		default:
+			return fmt.Sprintf("unexpected option of type %d (%d bytes)", o.OptType, len(o.OptData))
+		}
+	}
+	if ts > 1 {
+		return fmt.Sprintf("%d receive-timestamp options", ts)
+	}
+	return ""
+}
+
 func c13Server(r *ev.Run) {
 	srv, srv2, cli, app := blockIP(r, 13, 1), blockIP(r, 13, 4), blockIP(r, 13, 2), blockIP(r, 13, 5)
 	tgt, err := StartTarget("plain", "-ip", srv.String(), "-kinds", "scion")
@@ -418,7 +442,8 @@ func c13Server(r *ev.Run) {
 			continue
 		}
 		payload := randBytes(rng, 1+rng.IntN(900))
-		rq, err := c13Build(rng, cli, app, 5555, fc.dport, payload, false)
+		withAuth := i%3 == 0 // an authenticated packet for the application behind the end-host port
+		rq, err := c13Build(rng, cli, app, 5555, fc.dport, payload, withAuth)
 		if err != nil {
 			continue
 		}
@@ -445,6 +470,25 @@ func c13Server(r *ev.Run) {
 			if err != nil || !ps.HasUDP || !bytes.Equal(ps.UDP.Payload, payload) || ps.UDP.DstPort != fc.dport || ps.UDP.SrcPort != 5555 {
 				w["forwarded"] = ev.Hex(got[0][:min(len(got[0]), 160)])
 				r.Violation("scion-forwarder|wrong-value:forwarded packet's UDP payload or ports differ|"+fc.name, id, w)
+			} else if extra := c13ForeignOptions(ps, rq.p.E2E); extra != "" {
+				// the forwarder may add its receive-timestamp option; everything else in the end-to-end header is the sender's
+				w["forwarded"], w["options"] = ev.Hex(got[0][:min(len(got[0]), 200)]), extra
+				r.Violation("scion-forwarder|wrong-value:forwarded packet carries end-to-end options that were not in the packet received|"+fc.name, id, w)
+			} else if withAuth {
+				// the end-to-end header belongs to the end points: its authenticator reaches the application as sent
+				kept := false
+				if ps.HasE2E {
+					if opt, err := ps.E2E.FindOption(slayers.OptTypeAuthenticator); err == nil && bytes.Equal(opt.OptData, rq.p.E2E[0].OptData) {
+						kept = true
+					}
+				}
+				hb := map[bool]string{true: "with a hop-by-hop header", false: "without hop-by-hop header"}[len(rq.p.HBH) > 0]
+				if !kept {
+					w["forwarded"] = ev.Hex(got[0][:min(len(got[0]), 200)])
+					r.Violation("scion-forwarder|wrong-value:forwarded packet lost its packet authenticator option|"+hb, id, w)
+				} else {
+					r.Class("forwarded-intact(authenticator kept, " + hb + "):" + fc.name)
+				}
 			} else {
 				r.Class("forwarded-intact:" + fc.name)
 			}
